@@ -232,3 +232,119 @@ def o14_4_confirm(v, out):
     second build must be found."""
     if out.get('_rc') != 0: return (False, 'native run failed: %s' % out.get('_stderr', '')[-300:])
     return (out.get('second_build_get') != 'Ok(Some)', 'a key of the rebuilt table reads %s (file length %s after the first build, %s after the second)' % (out.get('second_build_get'), out.get('len1'), out.get('len2')))
+
+
+def o14_5_add_entry(mir, tier):
+    """Two consecutive TableBuilder::add_entry calls with free keys k1 < k2 (the user keys may be equal: two versions of one key).
+    The block builders, the filter block builder and flush_data_block are by contract (events).  Reference, per call: every entry
+    is added to the data block and its user key to the filter block - unconditionally; when the pending block is full it is
+    flushed BEFORE the entry and its filter key are added (so the key is filed under the block that will hold it); an index entry
+    is written iff the flush produced a block handle, with that handle."""
+    from ..ob import World, klt
+    fn = mir.method('TableBuilder', 'add_entry')
+    res = Result('O14.5 TableBuilder::add_entry', [fn.path], 'two entries with free keys k1 < k2 (equal user keys allowed); block-full test, flush outcome (handle / nothing / error) free per call')
+    t0 = time.time()
+    w = World(mir)
+    keys = [w.key('k1'), w.key('k2')]; K = [w.K(k) for k in keys]
+    full = [Bool('block_full_%d' % i) for i in range(2)]; fl = [BitVec('flush_outcome_%d' % i, 8) for i in range(2)]
+    pre = list(w.pre) + [klt(K[0], K[1])] + [ULE(x, BitVecVal(2, 8)) for x in fl]
+    S = lib.std_summaries(); P = S['$patterns']
+    S['$patterns'].update(lib.ref_partial_ord(mir, 'InternalKey'))
+    def ev(env, e):
+        st = dict(env['$state']); st['events'] = st['events'] + [e]; env['$state'] = st; return st
+    def cur(env): return env['$state']['call']
+    P[r'BlockBuilder::approximate_size'] = lambda se, env, pc, b: lib.one(env, If(full[cur(env)], bv(4096), bv(0)))
+    P[r'DbOptions::max_block_size'] = lambda se, env, pc, o: lib.one(env, bv(4096))
+    def flush(se, env, pc, tb):
+        i = cur(env); st = ev(env, ('flush', i))
+        h = mir.mk_struct('BlockHandle', offset=BitVec('handle_off_%d' % i, 64), size=BitVec('handle_size_%d' % i, 64))
+        return [(fl[i] == 0, Enum('Ok', (Enum('Some', (h,)),)), st), (fl[i] == 1, Enum('Ok', (Enum('None'),)), st), (fl[i] == 2, Enum('Err', (Enum('IO', (Opaque('e'),), 'TableBuildError'),)), st)]
+    P[r'TableBuilder::flush_data_block'] = flush
+    def P_(se, env, v):
+        v = se.deref(env, v) if isinstance(v, Ref) else v
+        while isinstance(v, Ref): v = se.deref(env, v)
+        return v
+    def badd(se, env, pc, b, key, val):
+        which = P_(se, env, b).get('__which', '?')
+        st = ev(env, (which + '.add_entry', P_(se, env, key), P_(se, env, val))); return [(None, (), st)]
+    P[r'BlockBuilder::add_entry'] = badd
+    def fadd(se, env, pc, fb, key):
+        st = ev(env, ('filter.add_key', P_(se, env, key))); return [(None, (), st)]
+    P[r'FilterBlockBuilder::add_key'] = fadd
+    P[r'<Rc<InternalKey> as Clone>::clone'] = lib.ident
+    P[r'Rc::clone'] = lib.ident
+    P[r'Rc::new'] = lib.ident
+    P[r'<Rc<.*> as (?:Deref|AsRef<.*>)>::(?:deref|as_ref)'] = lib.ptr_deref
+    uk = mir.field('InternalKey', 'user_key')
+    P[r'InternalKey::get_user_key'] = lambda se, env, pc, k: lib.one(env, P_(se, env, k)[uk])
+    P[r'(?:core|std)::slice::<impl \[u8\]>::to_vec'] = lib.ident
+    P[r'<InternalKey as BinarySeparable>::find_shortest_separator'] = lambda se, env, pc, a, b: lib.one(env, {'separator_of': (P_(se, env, a), P_(se, env, b))})
+    P[r'<&InternalKey as BinarySeparable>::find_shortest_separator'] = P[r'<InternalKey as BinarySeparable>::find_shortest_separator']
+    P[r'BinarySeparable::find_shortest_separator'] = P[r'<InternalKey as BinarySeparable>::find_shortest_separator']
+    P[r'<InternalKey as TryFrom<Vec<u8>>>::try_from'] = lambda se, env, pc, v: lib.one(env, Enum('Ok', (v,)))
+    P[r'<Vec<u8> as From<&BlockHandle>>::from'] = lambda se, env, pc, h: lib.one(env, {'encoded_handle': P_(se, env, h)})
+    P[r'<Result<.*> as FromResidual<Result<Infallible, .*>>>::from_residual'] = lambda se, env, pc, r: lib.one(env, r)
+    ex = Exec(mir, S, loop_bound=4, opaque_calls_ok=True)
+    tf = mir.struct_fields('TableBuilder'); hf = mir.struct_fields('BlockHandle')
+    def call(i, rets, env, pc):
+        e = dict(env); st = dict(e['$state']); st['call'] = i; st['events'] = st['events'] + [('call', i)]; e['$state'] = st
+        def k(r, e2, p2):
+            if i == 1 or not (isinstance(r, Enum) and r.tag == 'Ok'): return finish(rets + [r], e2, p2)
+            call(i + 1, rets + [r], e2, p2)
+        args = [Ref('$tb'), keys[i], {'len': BitVec('vlen%d' % i, 64), 'kind': 'value%d' % i}]
+        if i == 0: ex.top(fn, args, e, pre, k)
+        else: ex.run_fn(fn, args, e, pc, k)
+    def finish(rets, env, pc):
+        evs = env['$state']['events']; posts = []
+        # split the events per call
+        per = []; curl = None
+        for e in evs:
+            if e[0] == 'call': curl = []; per.append(curl)
+            else: curl.append(e)
+        for i, ret in enumerate(rets):
+            mine = per[i]; kinds = [e[0] for e in mine]
+            ok = isinstance(ret, Enum) and ret.tag == 'Ok'
+            posts.append(('add_entry succeeds although flushing the full block failed (or fails without a failed flush)', BoolVal(ok) == Not(And(full[i], fl[i] == 2))))
+            posts.append(('a full data block is not flushed before the next entry is added (or a block is flushed that is not full)', full[i] == BoolVal('flush' in kinds)))
+            if ok:
+                d = [e for e in mine if e[0] == 'data.add_entry']; f = [e for e in mine if e[0] == 'filter.add_key']; ix = [e for e in mine if e[0] == 'index.add_entry']
+                posts.append(('the entry is not added to the data block exactly once', BoolVal(len(d) == 1 and d[0][1] is not None and d[0][1] == P_(ex, env, keys[i]))))
+                posts.append(('the user key of an entry is not added to the filter block (every entry, also a further version of the previous user key, must be filed under the block that holds it)',
+                              BoolVal(len(f) == 1) if len(f) != 1 else f[0][1] == K[i][0]))
+                if 'flush' in kinds:
+                    order_ok = kinds.index('flush') < min([kinds.index('data.add_entry')] if d else [99]) and kinds.index('flush') < min([kinds.index('filter.add_key')] if f else [99])
+                    posts.append(('the entry or its filter key is added before the full block was flushed (the key is filed under the wrong block)', BoolVal(order_ok)))
+                posts.append(('an index entry is written without a flushed block, or a flushed block gets no index entry', And(full[i], fl[i] == 0) == BoolVal(len(ix) == 1)))
+                if len(ix) == 1:
+                    hnd = ix[0][2].get('encoded_handle') if isinstance(ix[0][2], dict) else None
+                    posts.append(('the index entry does not carry the handle of the block that was just flushed', And(hnd[hf.index('offset')] == BitVec('handle_off_%d' % i, 64), hnd[hf.index('size')] == BitVec('handle_size_%d' % i, 64)) if hnd else BoolVal(False)))
+                    sep = ix[0][1].get('separator_of') if isinstance(ix[0][1], dict) else None
+                    posts.append(('the index key is not a separator between the last key of the flushed block and the new key', BoolVal(sep is not None and i == 1 and sep[0] == P_(ex, env, keys[0]) and sep[1] == P_(ex, env, keys[1]))))
+        tb = ex.deref(env, Ref('$tb'))
+        n_ok = len([r for r in rets if isinstance(r, Enum) and r.tag == 'Ok'])
+        posts.append(('num_entries does not count the added entries', tb[tf.index('num_entries')] == bv(n_ok)))
+        res.cases['calls=%d %s' % (len(rets), [[e[0] for e in c] for c in per])] = 1
+        for label, post, m in ex.check_posts(posts, pc):
+            rep = 'filter' in label
+            res.violations.append({'label': label, 'events': [[e[0] for e in c] for c in per], 'model': {'same_user_key': mval(m, K[0][0] == K[1][0]), 'block_full': [mval(m, x) for x in full]},
+                                   'replay': ['table_filter_versions'] if rep else None, 'confirmed_by': None if rep else {'reproduced': False, 'detail': 'no native scenario for this label'}})
+    tb = mir.mk_struct('TableBuilder', options={'abstract': True, '__ty': 'DbOptions'}, file_closed=BoolVal(False), file='file', file_number=bv(1), current_offset=BitVec('off', 64),
+                       data_block_builder={'abstract': True, '__ty': 'BlockBuilder', '__which': 'data'}, index_block_builder={'abstract': True, '__ty': 'BlockBuilder', '__which': 'index'},
+                       filter_block_builder={'abstract': True, '__ty': 'FilterBlockBuilder'}, num_entries=bv(0), maybe_last_key_added=Enum('None'))
+    env = {'$state': {'events': [], 'call': 0}, '$tb': tb}
+    # first call: nothing pending, so the block cannot be full with a last key missing: the real builder only has a non-empty block after an add
+    pre.append(Not(full[0]))
+    call(0, [], env, [])
+    res.absorb(ex)
+    for pc, msg, where in ex.panics:
+        res.panic_paths += 1; res.violations.append({'label': 'panic path: ' + msg[:80], 'replay': None, 'confirmed_by': {'reproduced': False, 'detail': 'no native scenario'}})
+    res.wall_s = time.time() - t0
+    if res.violations: res.status = 'violation'
+    return res
+
+
+def o14_5_confirm(v, out):
+    """Native: tables whose user keys have 5 versions each with incompressible values of several lengths (versions of one key
+    cross data-block and filter-range boundaries); every version is looked up with its own sequence bound."""
+    if out.get('_rc') != 0: return (False, 'native run failed: %s' % out.get('_stderr', '')[-300:])
+    return (out.get('missing', '0') != '0', 'native sweep: %s stored versions reported absent or wrong (first: %s)' % (out.get('missing'), out.get('first_missing')))
